@@ -42,7 +42,7 @@ def mechanism(a, b):
 
 ORIENT = ["oblique", "vertical", "horizontal", "near-vertical", "near-horizontal"]
 QKINDS = ["beside", "beyond", "on", "vertex", "far", "near"]
-CKINDS = ["lattice", "half", "dec", "real", "map"]
+CKINDS = ["lattice", "half", "dec", "real", "map", "pyint"]
 
 
 # --------------------------------------------------------------------------
@@ -85,6 +85,8 @@ def setup(ctx):
 # --------------------------------------------------------------------------
 # generators
 def _coord(rng, ck):
+    if ck == "pyint":
+        return rng.randint(-20, 20)          # coordinates held as Python ints
     if ck == "lattice":
         return float(rng.randint(-20, 20))
     if ck == "half":
@@ -99,7 +101,9 @@ def _coord(rng, ck):
 def _delta(rng, ck):
     """non-zero coordinate increment of the chunk's coordinate kind"""
     while True:
-        if ck == "lattice":
+        if ck == "pyint":
+            d = rng.randint(-12, 12)
+        elif ck == "lattice":
             d = float(rng.randint(-12, 12))
         elif ck == "half":
             d = rng.randint(-24, 24) / 2.0
@@ -164,7 +168,7 @@ def _query(rng, ck, pts, qk):
         s = rng.choice([1e3, 1e4, 1e5])
         return (x1 + rng.uniform(-s, s) + rng.choice([-s, s]), y1 + rng.uniform(-s, s))
     # "near": a random point of the same coordinate kind in the neighbourhood
-    if ck in ("lattice", "half", "dec"):
+    if ck in ("lattice", "half", "dec", "pyint"):
         return (_coord(rng, ck), _coord(rng, ck))
     return (x1 + _delta(rng, ck), y1 + _delta(rng, ck))
 
@@ -189,6 +193,8 @@ def cases(chunk):
                 pts = [p, _next_vertex(rng, ck, p, rng.choices(names, weights)[0])]
         else:
             n = rng.randint(2, 8)
+            if it % 60 == 31:
+                n = rng.choice([65, 66, 129, 200, 500, 1000])   # larger scale: polylines of dozens to a thousand vertices
             # in half of the polylines no leg is axis-aligned, so that the
             # polyline logic is judged without interference of the open findings
             clean = rng.random() < 0.5
@@ -207,6 +213,8 @@ def cases(chunk):
             rng.shuffle(kinds)
             for qk in kinds[:rng.randint(4, 6)]:
                 q = _query(rng, ck, pts, qk)
+                if ck == "pyint" and kind == "tracks":
+                    q = (int(round(q[0])), int(round(q[1])))       # the query track holds ints too
                 Q.append([q[0], q[1], qk])
         else:
             Q.append([p[0] + 1.0, p[1] + 2.0, "near"])
@@ -468,6 +476,8 @@ def _run(case, ctx, given_track, query_track=None):
         return ood("degenerate: every leg has zero length", ["fn:" + fn, "leg:zero"])
     cls = ["fn:" + fn, "coords:" + case["ck"]] + sorted(set("leg:" + c for c in legcls)) \
         + sorted(set("q:" + q[2] for q in Q))
+    if len(pts) >= 65:
+        cls.append("polyline_of_65+_vertices")
     sig = (kind, tuple(case["X"]), tuple(case["Y"]), tuple((q[0], q[1]) for q in Q))
     want_idx = kind != "seg"
 
@@ -572,7 +582,8 @@ def _run(case, ctx, given_track, query_track=None):
 
 # floors for the call-history workloads added in session 3 (a run in which they were silently skipped is inconclusive)
 _floors_base = floors
-_FLOORS_EXTRA = {'classes': {'history_reference_edited_in_place': 1000}}
+_FLOORS_EXTRA = {'classes': {'history_reference_edited_in_place': 1000, 'coords:pyint': 3000,
+                             'polyline_of_65+_vertices': 200}}
 
 
 def floors(tier):
